@@ -35,6 +35,8 @@ def build_config(spec):
     if "alt" in spec:
         c.detector.initial_position.altitude = spec["alt"]
     c.detector.radio.snr_threshold = 0.01
+    if spec.get("never_occulted"):
+        c.simulation.target.source_obst = 600.0
     if "limb_deg" in spec:
         import math
 
